@@ -405,4 +405,27 @@ theorem C01_native_openssl_contract_satisfiable :
     LibCryptoOk (pureLib secp256k1) secp256k1 ∧ LibCryptoOk (pureLib secp256r1) secp256r1 :=
   ⟨pureLib_ok_secp256k1, pureLib_ok_secp256r1⟩
 
+/-- non-vacuity of the contract on libsecp256k1: an executable instance (the pure model playing the library) satisfies it -/
+theorem C01_native_libsecp_contract_satisfiable : LibSecpOk (pureSecp secp256k1) secp256k1 := pureSecp_ok_secp256k1
+
+/-! evaluated examples (tests): the libsecp256k1 glue model over the pure-model library — a signature is low-S, verifies,
+its high-S twin verifies too, out-of-range `r` is an `OverflowError`, an out-of-curve key is `False` -/
+section examples
+def exSig := Secp.sign (pureSecp secp256k1) secp256k1 none 12345 987654321
+#guard (match exSig, Pycoin.RFC6979.sign secp256k1 0 12345 987654321 with
+  | .ok (r, s), .ok (r', s') => r == r' && (s == s' || s == (secp256k1.n : Int) - s') && decide (s ≤ (secp256k1.n : Int) / 2)
+  | _, _ => false)
+#guard (match exSig, Curve.mulG secp256k1 0 12345 with
+  | .ok (r, s), .ok Q =>
+      (Secp.verify (pureSecp secp256k1) Q 987654321 r s matches .ok true) &&
+      (Secp.verify (pureSecp secp256k1) Q 987654321 r ((secp256k1.n : Int) - s) matches .ok true) &&
+      (Secp.verify (pureSecp secp256k1) Q 987654322 r s matches .ok false) &&
+      (Secp.verify (pureSecp secp256k1) Q 987654321 (r + 2 ^ 256) s matches .error .overflow) &&
+      (Secp.verify (pureSecp secp256k1) (some (1, 1)) 987654321 r s matches .ok false)
+  | _, _ => false)
+#guard Secp.mul (pureSecp secp256k1) secp256k1 (secp256k1.n + 5) == Curve.mulG secp256k1 77 5
+#guard Secp.multiply (pureSecp secp256k1) secp256k1 (some (secp256k1.gx + secp256k1.p, secp256k1.gy)) 3 matches .error .overflow
+#guard Secp.multiply (pureSecp secp256k1) secp256k1 (some (1, 1)) 3 matches .ok .pyFalse
+end examples
+
 end Pycoin.Native
